@@ -206,4 +206,44 @@ Proof.
     intros i' j' Hj Hi'. apply LZ; lia.
 Qed.
 
+(* ---------- uniqueness under a left inverse ---------- *)
+Definition left_inverse (n : nat) (N E : nat -> nat -> A) : Prop :=
+  forall i j, (i < n)%nat -> (j < n)%nat ->
+    sum_n n (fun k => N i k * E k j) = if (i =? j)%nat then one else zero.
+
+Lemma left_inverse_apply n (N E : nat -> nat -> A) (r x : nat -> A) :
+  left_inverse n N E -> solf n E r x ->
+  forall i, (i < n)%nat -> x i = sum_n n (fun k => N i k * r k).
+Proof.
+  intros LI S i Hi.
+  rewrite <- (sum_n_delta FL n i x Hi).
+  transitivity (sum_n n (fun j => sum_n n (fun k => N i k * (E k j * x j)))).
+  - apply sum_n_ext. intros j Hj. rewrite <- (LI i j Hi Hj).
+    rewrite <- (sum_n_scale_r FL). apply sum_n_ext. intros k Hk. ring.
+  - rewrite (sum_n_swap FL). apply sum_n_ext. intros k Hk.
+    rewrite (sum_n_scale FL). f_equal. apply (S k Hk).
+Qed.
+
+Lemma solutions_unique_fun n (N E : nat -> nat -> A) (r x y : nat -> A) :
+  left_inverse n N E -> solf n E r x -> solf n E r y -> forall i, (i < n)%nat -> x i = y i.
+Proof.
+  intros LI Sx Sy i Hi.
+  rewrite (left_inverse_apply n N E r x LI Sx i Hi).
+  now rewrite (left_inverse_apply n N E r y LI Sy i Hi).
+Qed.
+
+Lemma solutions_unique_lemma (M : matrix A) (b x y : list A) :
+  (exists N : nat -> nat -> A, left_inverse (rows M) N (ent M)) ->
+  length x = rows M -> length y = rows M ->
+  (forall i, (i < rows M)%nat -> mvprod (rows M) (ent M) (fun k => nth k x zero) i = nth i b zero) ->
+  (forall i, (i < rows M)%nat -> mvprod (rows M) (ent M) (fun k => nth k y zero) i = nth i b zero) ->
+  x = y.
+Proof.
+  intros (N & LI) Lx Ly Sx Sy.
+  apply (nth_ext x y zero zero); [congruence|].
+  intros i Hi. rewrite Lx in Hi.
+  apply (solutions_unique_fun (rows M) N (ent M) (fun i => nth i b zero)
+           (fun k => nth k x zero) (fun k => nth k y zero)); auto.
+Qed.
+
 End SolveProofs.
